@@ -1939,8 +1939,8 @@ func (r stack) assembleStringStack(str []string, ot string, oc stackType) string
 			var joinChar string
 			if ljc := r.getListDelimiter(); len(ljc) > 0 {
 				joinChar = ljc
-			} else {
-				joinChar = pad
+			} else if !r.positive(nspad) {
+				joinChar = " "
 			}
 			builder.WriteString(join(str, joinChar))
 		} else {
